@@ -366,7 +366,8 @@ func (r *exRun) checkAnswers() {
 			if cl.err == context.Canceled && r.rlCancelled.Load() {
 				continue
 			}
-			if cl.err == nil || !strings.Contains(cl.err.Error(), "resolve not called") {
+			if cl.err == nil || cl.res != nil {
+				// (a nil result with some error: the library's own resolve-not-called outcome; its wording is not asserted)
 				r.problem("answer", "foreign-outcome", "call %d received (%v, %v), which no execution produced", cl.id, cl.res, cl.err)
 			}
 			continue
@@ -405,7 +406,7 @@ func (r *exRun) checkAnswers() {
 	}
 	for _, cl := range calls {
 		if cl.work == "never" && !cl.start && cl.runs.Load() == 1 {
-			if cl.res != nil || cl.err == nil || !strings.Contains(cl.err.Error(), "resolve not called") {
+			if cl.res != nil || cl.err == nil {
 				r.problem("answer", "resolve-not-called", "call %d supplied a work function that returned without resolving, and got (%v, %v)", cl.id, cl.res, cl.err)
 			}
 		}
